@@ -493,7 +493,7 @@ impl MessageEncoder {
     decreases vx_s0@.len() - position,
 //@prefix
 #[verifier::rlimit(60)]
-//@before "check_buffer_boundaries(buffer,"
+//@head
     proof { lemma_img_ge20(*msg, msg.attributes@.len() as int); }
 //@before "let mut length"
     proof { lemma_img0(*msg); }
@@ -504,7 +504,7 @@ impl MessageEncoder {
         }
         assert(buffer@.subrange(2, 4) =~= seq![0u8, 0u8]);
     }
-//@before "let coded_index ="
+//@loopstart 1
     proof {
         lemma_fail_prefix(*msg, position as int + 1, msg.attributes@.len() as int, buffer@.len() as int);
         lemma_img_grows(*msg, position as int + 1);
@@ -521,7 +521,7 @@ impl MessageEncoder {
             assert(attributes@.subrange(4, 4 + value_size as int) =~= attr.wire(p));
         }
     }
-//@before "position += 1;"
+//@loopend 1
     let ghost af = attributes@;
     let ghost rf = raw_msg@;
     proof {
